@@ -255,7 +255,10 @@ func init() {
 					for _, in := range []uint32{0, full, 0x5555 & full, 0x2aaa & full} {
 						doBurst(bjs[i].p, buf, bjs[i].start, L, in)
 					}
-					if bjs[i].p.hole && bjs[i].start < 17*8 {
+					// the checksum trailer and the bytes before it: every pattern (a decoder that gives a
+					// special meaning to some trailer value is only caught by the pattern that produces it)
+					tail := bjs[i].start >= len(bjs[i].p.pkt)*8-32
+					if tail || bjs[i].p.hole && bjs[i].start < 17*8 {
 						for in := uint32(0); in <= full; in++ {
 							doBurst(bjs[i].p, buf, bjs[i].start, L, in)
 						}
